@@ -40,7 +40,7 @@ PROPS = {
     "C05": P(["lifecycle", "store", "provider", "waitpay", "rpc"],
              "Proof (Verus): pay requires !live(w) && !pay_running; a Succeeded record is never followed by add_payment_attempt/pay; add_payment_attempt never overwrites a Succeeded record; the Free write of mark_failed is generation guarded (Released-phase rely).",
              LIFE_NOTE, assumptions=A_WORLD),
-    "C06": P(["lifecycle", "fee", "paystate", "tlv_dec", "handle", "handle_slices", "store", "provider", "waitpay", "height", "tlv_enc", "tlv_get", "hooks"],
+    "C06": P(["lifecycle", "fee", "paystate", "tlv_dec", "handle", "handle_slices", "store", "provider", "waitpay", "height", "tlv_enc", "tlv_get", "hooks", "dispatch"],
              "Proof of the safety half (Verus): every normal return of payment_lifecycle has answered exactly once (resolve requires not yet released, lifecycle ensures released); no reachable panic in the functions under contract (unwrap/expect/todo!/overflow/index are obligations). Known finding F-C06-a (todo! reachable). Liveness clauses are not applicable to this technique (level_note).",
              LIFE_NOTE + " NOT APPLICABLE clauses: 'eventually', 'no later than one MPP timeout', deadlock freedom (liveness / scheduler fairness).",
              assumptions=A_WORLD),
@@ -97,12 +97,12 @@ PROPS["C16"] = P(["provider", "waitpay", "rpc"],
     "Trusted: " + TB_COMMON + " env/cln_pay.rs (pay status semantics; a pay RPC that has returned creates no further parts); wait_payment enters under its interface contract (C15).",
     assumptions=A_WORLD + ["a pay command that has returned (result or RPC error) creates no further parts"])
 
-PROPS["C17"] = P(["codec", "driver", "driver_run"],
+PROPS["C17"] = P(["codec", "driver", "driver_run", "dispatch"],
     "Proof of the codec half (Verus): MultiLineCodec::decode and find_separator verbatim: without a blank-line separator decode returns Ok(None) and leaves the buffer untouched; otherwise it consumes exactly the bytes up to and including the FIRST separator and returns the UTF-8 text before it (Err iff not UTF-8), no index/overflow panic. Lemmas: appending bytes never moves the first separator (chunking independence), and a split inside the separator is found once both bytes are present. Reply path (E6 slice of PluginDriver::dispatch_one, the body of the task spawned per request): once the handler has finished exactly one reply carrying that request's id is handed to the writer queue (send waits for room), the result on success and the error object otherwise. Writer loop: PluginDriver::run (whole function, E3 on its select!, loop invariant) writes every reply it takes out of the reply channel to stdout, once and in order, before the next round. Everything else in C17 is not applicable.",
     "Trusted: " + TB_COMMON + " env/codec_env.rs: BytesMut (split_to, range index, len), and the std semantics of iter().zip(iter().skip(1)).position(pred) (first index whose pair satisfies the predicate) as an env iterator model; the predicate closure itself is checked (E8). utf8() is under an assumed contract; encode() is verified against vstd's UTF-8 view of str (spec_bytes): the frame written is the text's bytes followed by exactly \"\\n\\n\". "
     "env/driver_env.rs: tokio mpsc send/try_send, the two json! reply shapes as opaque constructors. NOT APPLICABLE clauses: FramedRead's read loop (tokio-util), that every request reaches dispatch_one and its task is spawned (boxed callbacks, tokio::spawn), non-interleaved concurrent writes (tokio::spawn'ed boxed callbacks, json!, FramedWrite behind a mutex), JSON well-formedness (serde_json).",
     assumptions=["tokio-util FramedRead appends the bytes read and calls decode until it returns None", "std slice iteration semantics (env model)"],
-    not_covered=["JsonCodec / JsonRpcCodec (serde_json text <-> value)", "dispatch_one outside the reply slice (src/cln_plugin/mod.rs), and the cancellation of partially executed select! branch futures: PluginDriver::run is verified with every branch future as one atomic, cancellation-safe call (E3 refuses anything else: exit 2), dispatch_one being ASSUMED cancellation safe", "logging writer"])
+    not_covered=["JsonCodec / JsonRpcCodec (serde_json text <-> value)", "dispatch_one outside its three slices -- reply path, and the two tails that start the handler tasks (no suspension point after the message was read; each handler started exactly once as a task of its own) -- i.e. the lookup of method / params / callback (src/cln_plugin/mod.rs), and the cancellation of partially executed select! branch futures: PluginDriver::run is verified with every branch future as one atomic, cancellation-safe call (E3 refuses anything else: exit 2), dispatch_one being ASSUMED cancellation safe", "logging writer"])
 
 PROPS["C19"] = P(["config", "provider", "initopts"],
     "Proof (Verus) on two E6 slices of main() (src/main.rs): (a) from the first cp.option(..) to the construction of the payment provider, (b) the statement that builds HtlcManager::new(HtlcManagerParams{..}): it refuses to start iff a value is out of its target range or policy delta <= safety delta; (c) the statement of Builder::handle_init (src/cln_plugin/mod.rs) that turns the `init` message's JSON value into the option's value: the configured string/integer/bool exactly, the declared default when absent, no normal return for any other JSON type; otherwise safety delta, advertised/enforced policy, MPP timeout, self-route-hint flag, payment timeout and xpay equal the configured values (options are distinct opaque tokens, so a swapped option is a failed obligation). PayPaymentProvider::new caps the retry time at 65535 s.",
@@ -110,11 +110,11 @@ PROPS["C19"] = P(["config", "provider", "initopts"],
     assumptions=["ConfiguredPlugin::option hands main() the value that handle_init stored for that option (the HashMap between the two is not under contract)"],
     not_covered=["statements of main() between the two slices", "in handle_init a number that is not an i64 must make the plugin refuse (panic): Verus cannot tell a panic from 'continues with some integer', so only 'nothing other than the configured integer' is decided"])
 
-PROPS["C20"] = P(["height", "rpc", "hooks"],
+PROPS["C20"] = P(["height", "rpc", "hooks", "dispatch"],
     "Proof (Verus): update_height leaves the shared cell at max(value found under the lock, new height) = the maximum of all heights told so far, never lower than before; new_block, poll_height and current_height reach the cell only through update_height / a read under the same mutex. Holds under every interleaving because the update is one critical section and every other updater guarantees the same postcondition. Catch-up clause in its safety form: the polling task poll_forever (verbatim, E3 on its select!, loop invariant) never asks the timer for a wait longer than the declared POLL_INTERVAL and starts a new wait only when every earlier wake-up was followed by a poll_height call (failed polls included); a successful poll leaves the height at least at what the node reported. That the timer fires and the task is scheduled in time is not applicable.",
     "Trusted: " + TB_COMMON + " env/height_env.rs (tokio Mutex<u32>: exclusive access; other holders only run update_height). env timer/shutdown channel of poll_forever with ghost wake-up counters (PollGhost). POLL_INTERVAL enters by E13 (exec const + reflection contract). NOT APPLICABLE part of the catch-up clause: that tokio's timer fires on time and the task gets scheduled (liveness); start()'s spawn of poll_forever is not under contract.",
     assumptions=["only the functions of block_watcher.rs write the height cell (field is private to the module)"],
-    not_covered=["that every block_added notification the node sends reaches new_block, (src/cln_plugin/mod.rs dispatch_one is not under contract; the handler on_block_added of src/plugin.rs is: every notification that parses is handed to new_block): 'told' means new_block / poll_height was called"])
+    not_covered=["that every block_added notification the node sends reaches new_block, (src/cln_plugin/mod.rs: of dispatch_one only the spawning tail of the notification arm is under contract -- every subscribed handler is started once as its own task, nothing is awaited in place; the handler on_block_added of src/plugin.rs is: every notification that parses is handed to new_block): 'told' means new_block / poll_height was called"])
 
 PROPS["C18"] = dict(P(["tlv_dec", "tlv_enc", "tlv_get"],
     "Proof (Verus, unbounded loop invariant): get_compact_size, SerializedTlvStream::from_bytes and try_from(Vec<u8>) as extracted from src/tlv.rs are total (every bytes::Buf getter's remaining-length precondition is discharged: no panic on any byte string) and return exactly parse(bytes) of the BigSize/TLV spec functions in specs/tlv_spec.rs. Encoder: put_compact_size appends exactly cs_enc(x) (minimal BigSize), to_bytes returns the concatenation of the record encodings (loop invariant), and lemma_cs_roundtrip proves cs_dec(cs_enc(x) ++ rest) == (x, len) for all u64. Lemmas (checked on every run): lemma_parse_of_encoding: parse(enc_all(es)) == Some(es) for every record sequence (encode-then-decode reproduces the records), lemma_decode_then_encode: for every byte string that is an encoding (valid, minimally encoded stream) decoding then encoding reproduces the bytes. Composed with from_bytes == parse and to_bytes == enc_all this is the lossless clause for the real functions. Record access: get returns the first record of the type (None iff there is none), remove deletes exactly that record and keeps all others byte for byte and in order (unit tlv_get, real bodies, hint-free).",
